@@ -525,10 +525,20 @@ def judge_hist(init, steps, rec):
                             f"but status=success" + ("" if dry else " and the file was " + ("changed" if aft != cur else "rewritten")), None))
             elif aft != cur:
                 out.append((f"cas-stale-changed: step {i} ({st['op']}) base_hash mismatch, status={env['status']} but the file bytes changed", None))
-            elif env["status"] == "error" and env["code"] != "E_HASH":
+            elif env["status"] == "error" and env["code"] != "E_HASH" and not st.get("fault"):
+                # (under an injected failure another error class may legitimately come first)
                 pk = PIPE_OF.get(st["op"], st["op"])
                 if pk.startswith("atomic") or _PIPE[pk].get(cur) is not None:     # (CLI: parse/apply precede the hash check)
                     out.append((f"cas-stale-code: step {i} ({st['op']}) base_hash mismatch reported as {env['code']} instead of E_HASH", None))
+        # (a') the writer's retry: its previous call (same op, same base_hash) returned an error under an injected metadata
+        # failure, so the file must be as it was and a base_hash that matched then still matches: the retry is not E_HASH
+        if st.get("base") == "same" and i > 0 and steps[i - 1].get("fault"):
+            p = rec["steps"][i - 1]
+            pcur = None if p["cur"] is None else texts[p["cur"]]
+            matched = (not p["base"]) or pcur is None or sha(pcur) == p["base"]
+            if p["env"]["status"] == "error" and matched and env["status"] == "error" and env["code"] == "E_HASH":
+                out.append((f"retry-rejected: step {i - 1} ({st['op']}) returned status=error {p['env']['code']}, the retry with the same base_hash "
+                            f"is refused with E_HASH (the failed call had already installed its content)", None))
         # (b) dry calls and error returns leave the whole sandbox exactly as it was
         if (dry or env["status"] == "error") and not r["same"]:
             fid = None
